@@ -225,6 +225,18 @@ void wake_all(const void *obj)
 	for (auto *t : g_tasks) if (t->st == WAIT && t->obj == obj) { t->st = RUN; t->wake_at = -1; t->timed_out = false; }
 }
 
+// lock release: a released lock with waiters is handed to a waiter half of the time (whatever the policy); otherwise a
+// thread that re-acquires the lock in a loop would starve the waiters for ever under run-to-block or PCT scheduling,
+// which no real spin lock or mutex does
+static void unlock_wake(const void *obj)
+{
+	progress();
+	Task *w[64]; int n = 0;
+	for (auto *t : g_tasks) if (t->st == WAIT && t->obj == obj) { t->st = RUN; t->wake_at = -1; t->timed_out = false; if (n < 64) w[n++] = t; }
+	if (n && t_self && g_rng.chance(0.5)) { switch_to(w[g_rng.below(n)]); return; }
+	yield_point();
+}
+
 void at(int64_t t_ns, std::function<void()> fn) { g_events.push(Ev{t_ns, ++g_evseq, std::move(fn)}); }
 
 void advance(int64_t dt)
@@ -328,7 +340,7 @@ int __wrap_pthread_spin_trylock(pthread_spinlock_t *l) { int r = __real_pthread_
 int __wrap_pthread_spin_unlock(pthread_spinlock_t *l)
 {
 	int r = __real_pthread_spin_unlock(l);
-	if (active()) { wake_all((const void *)l); yield_point(); }
+	if (active()) unlock_wake((const void *)l);
 	return r;
 }
 int __wrap_pthread_mutex_lock(pthread_mutex_t *m)
@@ -342,7 +354,7 @@ int __wrap_pthread_mutex_trylock(pthread_mutex_t *m) { int r = __real_pthread_mu
 int __wrap_pthread_mutex_unlock(pthread_mutex_t *m)
 {
 	int r = __real_pthread_mutex_unlock(m);
-	if (active()) { wake_all(m); yield_point(); }
+	if (active()) unlock_wake(m);
 	return r;
 }
 int __wrap_sched_yield(void)
@@ -379,13 +391,14 @@ int64_t __wrap__ZNSt6chrono3_V212system_clock3nowEv()
 
 // FastFlow queue hook (guard FIX8_VERIF in /repo). Sites: see DESIGN.md section 4.
 //  4,8,15,20 = retry/spin branches (must switch, or a serialised spinner would never let the awaited thread run)
+//  60        = waiter in the FastFlow raw spin lock (must switch)
 //  7,19      = publish steps (count as progress for pollers)
 void fix8_verif_point(int site, unsigned long val)
 {
 	if (!active()) return;
 	if (point_observer) point_observer(site, val, t_self->id);
 	if (site == 7 || site == 19) progress();
-	if (site == 4 || site == 8 || site == 15 || site == 20 || g_must_sites.count(site)) must_yield(); else yield_point(site);
+	if (site == 4 || site == 8 || site == 15 || site == 20 || site == 60 || g_must_sites.count(site)) must_yield(); else yield_point(site);
 }
 
 }
